@@ -116,4 +116,26 @@ impl Service {
 
         res.into_iter()
     }
+
+    #[cfg(feature = "verif-hooks")]
+    pub(crate) fn verif_events(&self) -> impl Iterator<Item = (u32, &ConnectionId)> {
+        self.events
+            .iter()
+            .flat_map(|(&ev, ids)| ids.iter().map(move |id| (ev, id)))
+    }
+
+    #[cfg(feature = "verif-hooks")]
+    pub(crate) fn verif_has_empty_event_set(&self) -> bool {
+        self.events.values().any(HashSet::is_empty)
+    }
+
+    #[cfg(feature = "verif-hooks")]
+    pub(crate) fn verif_all_events(&self) -> impl Iterator<Item = &ConnectionId> {
+        self.all_events.iter()
+    }
+
+    #[cfg(feature = "verif-hooks")]
+    pub(crate) fn verif_subscriptions(&self) -> impl Iterator<Item = &ConnectionId> {
+        self.subscriptions.iter()
+    }
 }
